@@ -56,7 +56,7 @@ HARNESSES = {
     "c19_window": {"src": [H + "c19_window.c", R + "ubuf_mem_common.c", R + "ubuf_mem.c", R + "ubuf_pic_mem.c", R + "ubuf_pic_common.c", R + "ubuf_pic.c",
                            R + "ubuf_sound_mem.c", R + "ubuf_sound_common.c", R + "ubuf_block_mem.c", R + "uref_pic_flow.c", R + "udict_inline.c",
                            R + "uref_std.c", R + "umem_alloc.c"]},
-    "c13_pump": {"src": [H + "c13_pump.c", E + "vmock_upump.c", R + "upump_common.c", "@REPO@/lib/upump-ev/upump_ev.c"], "libs": ["-lev"]},
+    "c13_pump": {"src": [H + "c13_pump.c", E + "vmock_upump.c", (R + "upump_common.c", ["-Dmalloc=vf_malloc"]), "@REPO@/lib/upump-ev/upump_ev.c"], "libs": ["-lev"]},
     "c11_clock": {"src": [H + "c11_clock.c", R + "umem_alloc.c", R + "udict_inline.c", R + "uref_std.c"]},
     "c02_cow": {"src": [H + "c02_cow.c", (R + "ubuf_block_mem.c", ["-Dmalloc=vf_malloc"]), (R + "ubuf_mem_common.c", ["-Dmalloc=vf_malloc"]), R + "ubuf_mem.c", R + "ubuf_pic_mem.c", R + "ubuf_pic_common.c",
                         R + "ubuf_pic.c", R + "ubuf_sound_mem.c", R + "ubuf_sound_common.c", R + "uref_pic_flow.c", R + "udict_inline.c",
